@@ -289,6 +289,8 @@ func checkC14(p *Prog, r *Report) {
 
 	/* 3. Close of the output writer. */
 	nclose := 0
+	properClose := false
+	var deferredCloses [][2]any
 	for _, f := range withAnons(goFn) {
 		eachInstr(f, func(i ssa.Instruction) {
 			cc := callCommon(i)
@@ -326,7 +328,8 @@ func checkC14(p *Prog, r *Report) {
 			}
 			switch {
 			case deferred:
-				rClose.Bad(c, posOf(i), "the output writer is closed by a deferred call, i.e. only after Wait has returned: Wait blocks on the stdin copier until the input ends, so with the input still open the output never reports EOF")
+				/* Judged below: harmless beside a proper close. */
+				deferredCloses = append(deferredCloses, [2]any{c, i})
 			case f != goFn:
 				rClose.Bad(c, posOf(i), "the output writer is closed from a reader goroutine: it ends as soon as one descriptor does, cutting off the other")
 			default:
@@ -342,10 +345,19 @@ func checkC14(p *Prog, r *Report) {
 				case nil != wait && !instrDominates(i, wait):
 					rClose.Bad(c, posOf(i), "the output writer is not closed before cmd.Wait: Wait waits for the stdin copier, which ends only once the far side has seen the output end")
 				default:
+					properClose = true
 					rClose.OK(c, posOf(i), "after the join of both readers and before Wait")
 				}
 			}
 		})
+	}
+	for _, dc := range deferredCloses {
+		c, i := dc[0].(string), dc[1].(ssa.Instruction)
+		if properClose {
+			rClose.OK(c, posOf(i), "a deferred close beside the close before Wait: a no-op by then")
+		} else {
+			rClose.Bad(c, posOf(i), "the output writer is closed by a deferred call, i.e. only after Wait has returned: Wait blocks on the stdin copier until the input ends, so with the input still open the output never reports EOF")
+		}
 	}
 	if nclose < 1 {
 		rClose.Bad(fnName(goFn)+":close-output", goFn.Pos(), "Go never closes the output writer: the output never reports EOF")
@@ -506,6 +518,10 @@ func (s pipeSrc) Name() string {
 // is the row of a table at a loop's index (every row, once per iteration).
 func pipeSrcsOf(v ssa.Value, kept map[string]pipeSrc) (map[pipeSrc]bool, bool) {
 	out := map[pipeSrc]bool{}
+	if nil != theProg {
+		/* (a literal's parameter is what the literal is called with) */
+		v = theProg.resolveUp(stripConv(v, false))
+	}
 	rv := stripConv(resolveCell(stripConv(v, false)), false)
 	if fv, _ := fieldBehind(v); nil != fv {
 		out[pipeSrc{fv, -1}] = true
